@@ -450,3 +450,48 @@ def entity_source(ops, out_widths, wa, wb):
         e, bits = hw_expr(op)
         lines.append(f"            self.o{i} <<= " + (f"std.to_bits({e})" if bits else e))
     return "\n".join(lines) + "\n"
+
+
+# ------------------------------------------------------------------------------------------------
+# input classes: a failing input is identified by (operation case, class of the raw operand values)
+# ------------------------------------------------------------------------------------------------
+#
+# The classes are fixed, documented predicates over the operands (computed with the reference, never with
+# the implementation).  They partition the input space of a case; a known finding names one class, so a
+# failure of an input outside that class has a different key and is reported.
+#
+# resize:  <sign>-<range>-<kept>-<round>[-srcones]
+#   sign    neg | nonneg          sign of the source number
+#   range   under | in | over     floor(v / 2**right) against the target's raw bounds (before rounding)
+#   kept    keptones | keptmix    the bits of that floor below the target's sign position (UFixed: all target
+#                                 bits) are all ones / are not
+#   round   roundup | noround     ROUND selected and round-half-even moves the floor up by one
+#   srcones                       every bit of the source pattern is 1
+# + - * ==:  a<sign>-b<sign>      constructors / constants / sequences: "any"
+
+def input_class(op, a, b):
+    t = op[0]
+    if t == "resize":
+        _, kind, A, B, rs, _os = op
+        fs, ft = kfmt(kind, A), kfmt(kind, B)
+        v = ref.value(fs, a)
+        q = v / ref.pow2(ft[2])
+        fl = ref.floor_frac(q)
+        lo, hi = ref.int_bounds(ft)
+        k = width(B) - 1 if kind == "S" else width(B)
+        parts = [
+            "neg" if v < 0 else "nonneg",
+            "under" if fl < lo else ("over" if fl > hi else "in"),
+            "keptones" if fl % (1 << k) == (1 << k) - 1 else "keptmix",
+            "roundup" if rs == ref.ROUND and ref.round_half_even(q) > fl else "noround",
+        ]
+        if a == (1 << width(A)) - 1:
+            parts.append("srcones")
+        return "-".join(parts)
+    if t in ("arith", "eq"):
+        if t == "arith":
+            fa, fb = kfmt(op[2], op[3]), kfmt(op[2], op[4])
+        else:
+            fa, fb = kfmt(op[1], op[2]), kfmt(op[1], op[3])
+        return ("aneg" if ref.value(fa, a) < 0 else "anonneg") + "-" + ("bneg" if ref.value(fb, b) < 0 else "bnonneg")
+    return "any"
